@@ -26,7 +26,7 @@ def run(tier, replay=None):
     c.cov["obligations"] = int(m.group(1)); c.cov["discharged"] = int(m.group(1))
     c.cov["checker_cmd"] = "cd specs/proofs && tlapm --threads 8 --cleanfp RegHooksProof.tla"
     c.cov["trusted_base"] = ["tlapm 1.6.0-pre and its back ends (SMT/z3, Zenon, Isabelle, PTL/ls4)", "the TLA+ module RegHooksProof.tla as a faithful abstraction of src/interner.rs (bound to the code by X04, not by this proof)"]
-    c.sample({"theorems": ["Spec => []Inv"]})
+    c.sample({"theorems": ["Spec => []Inv", "StableStep"]})
     c.cov["rule"] = "tlapm (SMT / Zenon / Isabelle back ends, PTL for the temporal step): Spec => []Inv (duplicate-free table, open calls point at their identity) for an arbitrary identity set"
     shutil.rmtree(os.path.join(d, ".tlacache"), ignore_errors=True)
     return c.finish()
